@@ -160,35 +160,88 @@ def mon_c06(script, res):
 
 
 def mon_c04(script, res):
+    """Stop requests: signal, target, deadline, repetition (clock readings from the pass markers)."""
     n = len(script['procs'])
-    pid_owner = {}
+    U = script['U']
+    owner = {}
+    pid_of = [0] * n
+    cur = [0] * n
+    first_pending = [False] * n     # a STOPPING notification was seen, the stop signal is due next
+    m = [None] * n                  # minimum reading since the last signal to the process (while STOPPING)
+    killed_this_pass = [False] * n
+    now = None
+    in_signal_rpc = False
+    unreaped = set()
+
+    def end_of_pass():
+        # on every pass in which the deadline has passed and the child is unreaped, SIGKILL must have been sent
+        for i in range(n):
+            c = script['procs'][i]
+            if cur[i] == 40 and m[i] is not None and pid_of[i] in unreaped and not killed_this_pass[i] \
+                    and pass_transitioned and now >= m[i] + c['stopwaitsecs'] * U and not stopping_entered_this_pass[i]:
+                return 'p%d still STOPPING at reading %s, deadline %s passed, but no SIGKILL was sent on this pass' % (
+                    i, now, m[i] + c['stopwaitsecs'] * U)
+        return None
+    pass_transitioned = False
+    stopping_entered_this_pass = [False] * n
     for e in res['trace']:
-        if e[0] == 'fork':
-            pid_owner[e[2]] = e[1]
-    last = None
-    for e in res['trace']:
-        if e[0] == 'kill':
+        k = e[0]
+        if k == 'pass':
+            if now is not None:
+                msg = end_of_pass()
+                if msg:
+                    return msg
+            now = e[2]
+            pass_transitioned = True
+            killed_this_pass = [False] * n
+            stopping_entered_this_pass = [False] * n
+            for i in range(n):
+                if cur[i] == 40 and m[i] is not None and now < m[i]:
+                    m[i] = now
+        elif k == 'req':
+            in_signal_rpc = (e[2] == 'signal')
+        elif k == 'ans':
+            in_signal_rpc = False
+        elif k == 'fork':
+            owner[e[2]] = e[1]
+            unreaped.add(e[2])
+            if 0 <= e[1] < n:
+                pid_of[e[1]] = e[2]
+        elif k == 'wait':
+            unreaped.discard(e[1])
+        elif k == 'state' and 0 <= e[1] < n:
+            i = e[1]
+            if e[3] == 40:
+                first_pending[i] = True
+                stopping_entered_this_pass[i] = True
+            if e[2] == 40 and e[3] not in (0, 1000):
+                return 'p%d left STOPPING for state %s' % (i, e[3])
+            cur[i] = e[3]
+        elif k == 'kill':
             pid = abs(e[1])
-            who = pid_owner.get(pid)
-            if who is None:
+            i = owner.get(pid)
+            if i is None or not (0 <= i < n):
                 return 'signal sent to pid %d which supervisord never forked' % pid
-        if e[0] == 'state' and e[3] == 40:
-            last = e
-        elif e[0] == 'kill' and last is not None and last[0] == 'state':
-            who = last[1]
-            c = script['procs'][who]
-            want = c['stopsignal'] if True else None
-            # the signal right after entering STOPPING through stop() is the stop signal (signals sent by
-            # signalProcess are never preceded by a STOPPING notification)
-            if e[2] not in (c['stopsignal'], 9):
-                return 'p%d entered STOPPING and received signal %s instead of stopsignal %s' % (who, e[2], c['stopsignal'])
-            if e[2] == c['stopsignal'] and c['stopsignal'] != 9:
+            c = script['procs'][i]
+            if in_signal_rpc:
+                continue
+            if first_pending[i]:
+                first_pending[i] = False
+                if e[2] != c['stopsignal']:
+                    return 'p%d: stop request delivered signal %s, configured stopsignal is %s' % (i, e[2], c['stopsignal'])
                 if (e[1] < 0) != bool(c['stopasgroup']):
-                    return 'stop signal target %s does not match stopasgroup=%s' % (e[1], c['stopasgroup'])
-            last = None
-        else:
-            if e[0] != 'state':
-                last = None
+                    return 'p%d: stop signal sent to %s but stopasgroup=%s' % (i, e[1], c['stopasgroup'])
+                m[i] = now
+                killed_this_pass[i] = True
+            elif cur[i] == 40:
+                if e[2] != 9:
+                    return 'p%d: escalation used signal %s instead of SIGKILL' % (i, e[2])
+                if (e[1] < 0) != bool(c['killasgroup']):
+                    return 'p%d: SIGKILL sent to %s but killasgroup=%s' % (i, e[1], c['killasgroup'])
+                if m[i] is not None and now < m[i] + c['stopwaitsecs'] * U:
+                    return 'p%d: SIGKILL at reading %s, before the deadline %s' % (i, now, m[i] + c['stopwaitsecs'] * U)
+                m[i] = now
+                killed_this_pass[i] = True
     return None
 
 
@@ -431,6 +484,69 @@ def gen_scripts(chk, which):
 
 # ----------------------------------------------------------------- the check
 
+BEGIN = b'<!--XSUPERVISOR:BEGIN-->'
+END = b'<!--XSUPERVISOR:END-->'
+
+
+def hostile_script(rng, logdir):
+    """A random history with hostile child output (capture tags, partial tags, invalid UTF-8, ANSI fragments, big
+    writes), errno faults injected into read/close/waitpid/write, and liveness probes at the end.  These scripts are
+    outside the Coq model (no dispatcher output there): they are judged by the trace monitors only."""
+    import errno
+    s = life_gen.random_script(rng, hostile=0.3)
+    s['logdir'] = logdir
+    for c in s['procs']:
+        c['capture'] = rng.choice([0, 0, 10, 100])
+        c['events'] = rng.choice([0, 1])
+
+    def hostile_bytes():
+        parts = []
+        for _ in range(rng.randrange(1, 6)):
+            parts.append(rng.choice([BEGIN, END, BEGIN[:rng.randrange(1, 24)], b'\xff\xfe', b'hello\n', b'\x1b[31m', b'\x1b[',
+                                     bytes(rng.randrange(256) for _ in range(rng.randrange(0, 40))), b'x' * 3000,
+                                     (BEGIN + b'a' + END) * rng.choice([1, 5, 40])]))
+        return list(b''.join(parts))
+    for op in s['ops']:
+        if rng.random() < 0.5:
+            op['outputs'] = [[rng.randrange(4), rng.choice([1, 2]), hostile_bytes()] for _ in range(rng.randrange(1, 3))]
+        if rng.random() < 0.3:
+            name = rng.choice(['read', 'close', 'waitpid', 'write'])
+            op['faults'] = {name: [rng.choice([0, errno.EINTR, errno.EAGAIN, errno.EBADF, errno.EIO, errno.ENOMEM,
+                                               errno.ECHILD, errno.EPERM, errno.EPIPE]) for _ in range(rng.randrange(1, 4))]}
+    t = s['ops'][-1]['now']
+    s['ops'] += [{'now': t + 2, 'acts': [['exit', 0, 3]]}, {'now': t + 4, 'acts': []}, {'now': t + 8, 'acts': []},
+                 {'now': t + 10, 'acts': []}]
+    return s
+
+
+def mon_probe(script, res):
+    if res['ended'] == 'script' and res['snaps'] and res['snaps'][-1]['zombies']:
+        return 'a dead child was not reaped within three quiet passes after the disturbance: %r' % (res['snaps'][-1]['zombies'],)
+    return None
+
+
+def hostile_stream(chk, wd):
+    import shutil
+    n = 1500 if chk.tier == 'quick' else 20000
+    hits = 0
+    for k in range(n):
+        d = os.path.join(wd, 'h%d' % k)
+        os.makedirs(d)
+        s = hostile_script(chk.rng, d)
+        pend_exit.clear()
+        r = life_driver.run_script(s)
+        shutil.rmtree(d, ignore_errors=True)
+        chk.dist('hostile:' + str(r['ended']))
+        for m in (mon_c06, mon_c01, mon_c02, mon_probe):
+            msg = m(s, r)
+            if msg:
+                hits += 1
+                if hits <= 5:
+                    chk.violation({'kind': 'hostile history: property monitor rejects the implementation trace',
+                                   'monitor': m.__name__, 'message': msg, 'script': s, 'implementation': jsonable_result(r)})
+    return n, hits
+
+
 def first_diff_prefix(script, wd, tag):
     """Shortest prefix of the script on which model and implementation differ (binary search)."""
     ops = script['ops']
@@ -520,11 +636,16 @@ def _run(chk, which, prop_rel, proved, wd):
         prop, text = texts[fid]
         if prop == which:
             chk.known_finding(fid, '%s; %d such histories explored, all agree with the model' % (text, cnt))
+    nh = 0
+    if which == 'C06':
+        nh, hh = hostile_stream(chk, wd)
+        monitor_hits += hh
     if not proved:
         chk.violation({'kind': 'proof obligation no longer checks', 'detail': chk.proof_failure, 'file': 'coq/' + prop_rel},
                       nofail=not (bad or monitor_hits))
     cov = chk.coverage
-    cov['evaluations'] = len(cases)
+    cov['evaluations'] = len(cases) + nh
+    cov['hostile_histories_monitored'] = nh
     cov['distinct_nontrivial'] = len(distinct)
     cov['traces_validated_against_impl'] = len(cases)
     cov['exhaustive'] = False
